@@ -282,7 +282,9 @@ def cache_foundation(ctx):
     """Every property observed through `ScannerBuilder::build()` silently relies on the cache handing out the
     compilation of exactly the requested configuration (C13.a-d,f): emit those obligations too."""
     from . import sharing
-    sharing.analyze(ctx, {"C13.a", "C13.b", "C13.c", "C13.d", "C13.f"})
+    # (C12.a: ... and every scanner handed out is a *clone* — of the cache entry, of the Scanner for each iterator, of a
+    # lookahead for each candidate: the Clone impls of the compiled types are the derived, field-by-field ones)
+    sharing.analyze(ctx, {"C13.a", "C13.b", "C13.c", "C13.d", "C13.f", "C12.a"})
 
 
 COMPILED_WRITERS = {
@@ -323,6 +325,58 @@ def compiled_scanner_is_frozen(ctx, rule):
     ctx.floor(rule, "writers of compiled-scanner fields", n, 8)
 
 
+KEY_TRAITS = ("std::cmp::PartialEq", "std::cmp::Eq", "std::cmp::PartialOrd", "std::cmp::Ord", "std::hash::Hash")
+# key types whose comparison is written by hand, with the rule that decides what it compares
+KEY_IMPLS_BY_HAND = {
+    "internal::comparable_ast::ComparableAst": "C02.f decides which classes it may call equal",
+}
+
+
+def key_types_compare_structurally(ctx, rule):
+    """Every type of the crate that is used as a key of a BTreeMap/BTreeSet/HashMap/HashSet (found in the types of all locals
+    and fields, generic arguments included) compares, orders and hashes structurally: its PartialEq/Eq/PartialOrd/Ord/Hash
+    impls are the derived ones (or the ones the id macro derives).  A hand-written `Ord` that calls two different signatures
+    "equal" files a state under another state's entry: the two states are merged."""
+    F = ctx.facts
+    tys = set()
+    for fn in F.fns.values():
+        for l in fn.locals:
+            tys.add(l["ty"])
+    for a in F.adts.values():
+        for v in a.get("variants", []):
+            for f in v.get("fields", []):
+                tys.add(str(f.get("ty", {}).get("s", "") if isinstance(f.get("ty"), dict) else f.get("ty", "")))
+    keys = set()
+    for t in tys:
+        for m in re.finditer(r"(?:BTreeMap|BTreeSet|HashMap|HashSet|hash_map::Entry|btree_map::Entry)<", t):
+            # first generic argument, bracket-balanced
+            i, depth, j = m.end(), 0, m.end()
+            while j < len(t):
+                c = t[j]
+                if c in "<([":
+                    depth += 1
+                elif c in ">)]":
+                    if depth == 0:
+                        break
+                    depth -= 1
+                elif c == "," and depth == 0:
+                    break
+                j += 1
+            k = t[i:j]
+            for name in re.findall(r"\b((?:internal|scanner|pattern|scanner_mode|match_type|span|position)(?:::\w+)+)", k):
+                keys.add(name)
+    n = 0
+    for k in sorted(keys):
+        impls = [i for i in F.impls if i.get("of_trait") and i["self"]["s"].split("<")[0] == k and i.get("trait") in KEY_TRAITS]
+        for i in impls:
+            n += 1
+            by_hand = KEY_IMPLS_BY_HAND.get(k)
+            ok = bool(i["derived"]) or bool(i.get("exp_outer") and "impl_id" in str(i.get("exp_outer"))) or bool(i.get("exp") and "impl_id" in str(i.get("exp")))
+            ctx.ob(rule, "key-type-compares-structurally:%s:%s" % (M.short_name(k), i["trait"].split("::")[-1]), ok or by_hand is not None,
+                   "%s for %s (a map/set key) is %s%s" % (i["trait"].split("::")[-1], k, "derived" if ok else "written by hand", (" — " + by_hand) if (by_hand and not ok) else ""), i.get("file", ""))
+    ctx.floor(rule, "comparison impls of key types", n, 10)
+
+
 def language_foundation(ctx):
     """Side conditions of the regex->automaton pipeline (C02.a-g, C03.a-h) for properties whose statement
     presupposes that the automaton recognises the pattern languages."""
@@ -340,6 +394,7 @@ def language_foundation(ctx):
     from . import pC15
     pC15.parse_pipeline(ctx, "C02.k")   # the text parsed is the configured text, default parser configuration, every error returned
     compiled_scanner_is_frozen(ctx, "C02.m")
+    key_types_compare_structurally(ctx, "C02.n")
     from . import adaptors
     adaptors.analyze(ctx, ("C02.j", "C03.i", "C08.f"))     # no loop of the pipeline drops, truncates or reorders elements
 
